@@ -207,7 +207,10 @@ func runRestartRace() procxResult {
 		if err != nil {
 			panic(err)
 		}
-		// the API is used right away, as a server would
+		// whatever the start leaves running in the background (the persist loop) gets to run before the first API call:
+		// a lock hand-off from this goroutine would otherwise order the loader's writes before it
+		time.Sleep(150 * time.Millisecond)
+		// then the API is used, as a server would
 		var wg sync.WaitGroup
 		for k := 0; k < 2; k++ {
 			wg.Add(1)
